@@ -68,6 +68,7 @@ type Eval struct {
 	Ambiguous  int
 	Incomplete bool // evaluation could not be completed (after a reported problem)
 	NDisabled  int
+	NStaticNull int
 	NMapped    int
 	NEmptyMap  int
 	NNarrow    int
@@ -320,6 +321,95 @@ type scope struct {
 	mapKey string
 	mapKind byte
 	preflights []*Inst
+	// what martian's compile-time resolution knows about the pipeline's inputs
+	senv map[string]sconst
+}
+
+// sconst is the compile-time knowledge about an expression which matters for
+// dependencies: martian folds a reference which statically resolves to null
+// (an output of a call disabled by a constant, or anything projected out of
+// it) to a null literal, so the consumer takes no dependency through it - not
+// even on the disabling condition of an enclosing call (makeDisabledExp
+// returns the inner null unchanged).
+type sconst struct{ null, isTrue bool }
+
+func (e *Eval) staticConst(x *Expr, pl *PipelineDef, senv map[string]sconst) sconst {
+	if x == nil {
+		return sconst{}
+	}
+	switch x.Kind {
+	case ELit:
+		if x.Val == nil {
+			return sconst{null: true}
+		}
+		if b, ok := x.Val.(bool); ok && b {
+			return sconst{isTrue: true}
+		}
+		return sconst{}
+	case ERef:
+		if x.Self {
+			c := senv[x.Path[0]]
+			if len(x.Path) > 1 {
+				return sconst{null: c.null}
+			}
+			return c
+		}
+		if pl == nil {
+			return sconst{}
+		}
+		var cc *CallDef
+		for _, k := range pl.Calls {
+			if k.Id == x.Call {
+				cc = k
+			}
+		}
+		if cc == nil || cc.Mapped {
+			return sconst{}
+		}
+		if cc.Disabled != nil && e.staticConst(cc.Disabled, pl, senv).isTrue {
+			return sconst{null: true}
+		}
+		callee := e.P.Pipeline(cc.Callee)
+		if callee == nil || len(x.Path) == 0 {
+			return sconst{}
+		}
+		sub := e.staticEnv(cc, pl, senv)
+		for _, rb := range callee.Ret {
+			if rb.Param == x.Path[0] {
+				c := e.staticConst(rb.E, callee, sub)
+				if len(x.Path) > 1 {
+					return sconst{null: c.null}
+				}
+				return c
+			}
+		}
+	}
+	return sconst{}
+}
+
+func (e *Eval) staticEnv(c *CallDef, pl *PipelineDef, senv map[string]sconst) map[string]sconst {
+	sub := map[string]sconst{}
+	for _, b := range c.Binds {
+		if !b.Split {
+			sub[b.Param] = e.staticConst(b.E, pl, senv)
+		}
+	}
+	return sub
+}
+
+// staticNullOuts reports, per output of the pipeline called by c, whether it
+// statically resolves to null.
+func (e *Eval) staticNullOuts(c *CallDef, sc *scope) []bool {
+	callee := e.P.Pipeline(c.Callee)
+	if callee == nil {
+		return nil
+	}
+	sub := e.staticEnv(c, sc.pl, sc.senv)
+	out := make([]bool, len(callee.Ret))
+	for i, rb := range callee.Ret {
+		out[i] = e.staticConst(rb.E, callee, sub).null
+	}
+	return out
 }
 
 func (e *Eval) evalExpr(x *Expr, sc *scope, want Ty) *TV {
@@ -423,6 +513,22 @@ func (e *Eval) evalCall(c *CallDef, sc *scope) *TV {
 		case bool:
 			if v {
 				e.NDisabled++
+				if pl := e.P.Pipeline(c.Callee); pl != nil && !c.Mapped && len(ddeps) > 0 {
+					// disabled at run time: every output is null, but the ones
+					// which are null at compile time carry no dependency
+					sn := e.staticNullOuts(c, sc)
+					res := &TV{T: Ty{Base: "@" + pl.Name}, Kind: 's'}
+					for i, rb := range pl.Ret {
+						res.Keys = append(res.Keys, rb.Param)
+						if sn[i] {
+							e.NStaticNull++
+							res.Kids = append(res.Kids, absentTV(pl.Outs[i].T, nil))
+						} else {
+							res.Kids = append(res.Kids, absentTV(pl.Outs[i].T, ddeps))
+						}
+					}
+					return res
+				}
 				return e.absentResult(c.Callee, 0, ddeps).withMapped(c, e)
 			}
 		default:
@@ -440,7 +546,20 @@ func (e *Eval) evalCall(c *CallDef, sc *scope) *TV {
 		for _, b := range c.Binds {
 			args[b.Param] = e.convert(e.evalExpr(b.E, sc, inTy[b.Param]), inTy[b.Param])
 		}
-		return e.evalCallable(c, args, sc, sc.index, sc.mapKey, sc.mapKind, ddeps)
+		res := e.evalCallable(c, args, sc, sc.index, sc.mapKey, sc.mapKind, ddeps)
+		if pl := e.P.Pipeline(c.Callee); pl != nil && len(ddeps) > 0 && e.Rejected == "" {
+			// outputs of a conditionally disabled pipeline depend on the
+			// condition unless they are null at compile time anyway
+			sn := e.staticNullOuts(c, sc)
+			for i := range res.Kids {
+				if i < len(sn) && !sn[i] {
+					cp := *res.Kids[i]
+					cp.Deps = unionDeps(cp.Deps, ddeps...)
+					res.Kids[i] = &cp
+				}
+			}
+		}
+		return res
 	}
 	// mapped call
 	e.NMapped++
@@ -573,7 +692,7 @@ func (e *Eval) evalCallable(c *CallDef, args map[string]*TV, sc *scope, index, m
 	}
 	pl := e.P.Pipeline(c.Callee)
 	sub := &scope{pl: pl, self: args, calls: map[string]*TV{}, path: path, index: index + "/" + c.Id,
-		mapKey: mapKey, mapKind: mapKind, preflights: sc.preflights}
+		mapKey: mapKey, mapKind: mapKind, preflights: sc.preflights, senv: e.staticEnv(c, sc.pl, sc.senv)}
 	// preflight calls of this pipeline are prerequisites of all its other calls
 	for _, cc := range pl.Calls {
 		if cc.Preflight {
